@@ -652,9 +652,10 @@ static void ApplyState(const Checkable::Ptr& c, const Dictionary::Ptr& st)
 	if (ex.IsObjectType<Dictionary>())
 		{ Dictionary::Ptr d = ex.Clone(); c->SetExecutions(d); }
 	if (st->Contains("deep")) {
-		Value v = new Array();
+		/* dictionaries: Serialize's cycle check compares arrays by value, which makes deep arrays cubic */
+		Value v = new Dictionary();
 		for (int i = 0, n = st->Get("deep"); i < n; i++)
-			v = new Array({ v });
+			v = new Dictionary({ { "d", v } });
 		c->SetExecutions(new Dictionary({ { "deep", v } }));
 	}
 	Value crv = st->Get("cr");
@@ -803,9 +804,17 @@ static Dictionary::Ptr GenSpec(Rng& rng, int idx)
 			/* some of them are restored again before the shutdown */
 			Array::Ptr restores = new Array();
 			ObjectLock olock(mods);
-			for (const Value& m : mods)
-				if (rng.coin())
-					restores->Add(static_cast<Array::Ptr>(m)->Get(0));
+			for (const Value& m : mods) {
+				/* only attributes modified exactly once (what modify_restore_partial covers; repeated modification is F-C14b's
+				 * territory and explored by the modify/restore cases) */
+				String path = static_cast<Array::Ptr>(m)->Get(0);
+				int times = 0;
+				for (const Value& m2 : mods)
+					if (static_cast<Array::Ptr>(m2)->Get(0) == path)
+						times++;
+				if (times == 1 && rng.coin())
+					restores->Add(path);
+			}
 			spec->Set("restore", restores);
 		}
 	}
